@@ -280,7 +280,7 @@ func (e *env) attestations(chains []string) []attRec {
 		k := it.Key()
 		for _, ch := range chains {
 			pre := append([]byte(ch), types.OracleAttestationKey...)
-			if bytes.HasPrefix(k, pre) && len(k) == len(pre)+8+32 {
+			if bytes.HasPrefix(k, pre) && len(k) >= len(pre)+8 {
 				var att types.Attestation
 				if err := e.in.Marshaler.Unmarshal(it.Value(), &att); err != nil {
 					continue
